@@ -171,6 +171,100 @@ func c13Case(site c13Site, defKind string) *Case {
 	return cs
 }
 
+// c13PairCase: two uses per file, at two sites (one top-level statement each).
+// placement "before": the definitions precede both statements; "between":
+// they stand between the two, so that the first use is not a later use and
+// must stay as written whatever it is called.
+func c13PairCase(siteA, siteB c13Site, defKind, placement string) *Case {
+	at := &AtomTable{Coded: true}
+	defs := c13MakeDefs(defKind, at)
+	use := []*Atom{at.New(ClsIdent, "use", ""), at.New(ClsIdent, "use", "")}
+	bodies := []string{siteA.prog("\x00USE\x00", at), siteB.prog("\x00USE\x00", at)}
+	var defSrc []string
+	for _, d := range defs {
+		defSrc = append(defSrc, "const "+d.name.Placeholder()+" = "+d.value())
+	}
+	text := func(r int, i int) string {
+		if r < 0 {
+			return use[i].Placeholder()
+		}
+		return defs[r].exp()
+	}
+	mk := func(withDefs bool, r0, r1 int) *Program {
+		a := strings.ReplaceAll(bodies[0], "\x00USE\x00", text(r0, 0))
+		b := strings.ReplaceAll(bodies[1], "\x00USE\x00", text(r1, 1))
+		src := a + "\n" + b
+		if withDefs {
+			if placement == "between" {
+				src = a + "\n" + strings.Join(defSrc, "\n") + "\n" + b
+			} else {
+				src = strings.Join(defSrc, "\n") + "\n" + src
+			}
+		}
+		return &Program{Atoms: at, Tops: []interface{}{&TopRaw{Text: src}}}
+	}
+	var avs []AVSpec
+	for _, st := range []c13Site{siteA, siteB} {
+		if st.avs != nil && len(avs) == 0 {
+			avs = st.avs(at)
+		}
+	}
+	opt := CompileOpts{Optimize: true, AVs: avs}
+	subst := []bool{siteA.isSite && placement != "between", siteB.isSite}
+	variants := []Variant{{Name: "base", Opt: opt}}
+	rng := func(i int) []int {
+		out := []int{-1}
+		if subst[i] {
+			for j := range defs {
+				out = append(out, j)
+			}
+		}
+		return out
+	}
+	for _, r0 := range rng(0) {
+		for _, r1 := range rng(1) {
+			variants = append(variants, Variant{Name: fmt.Sprintf("ref%d_%d", r0, r1), Opt: opt, Prog: mk(false, r0, r1)})
+		}
+	}
+	cs := &Case{Name: fmt.Sprintf("c13pair/%s+%s/%s/%s", siteA.name, siteB.name, defKind, placement), Prog: mk(true, -1, -1), Variants: variants, NonTrivial: true,
+		Shape: c13Shape{Site: siteA.name + "+" + siteB.name + "/" + placement, Defs: defKind, IsSite: siteA.isSite || siteB.isSite}, MaxPaths: 256}
+	cs.Oracle = func(x *OracleCtx) *Violation {
+		base := x.Res["base"]
+		if base.Err.Panic != "" {
+			return &Violation{Sub: "panic", Msg: base.Err.Panic}
+		}
+		r := []int{-1, -1}
+		for i := range r {
+			if !subst[i] {
+				continue
+			}
+			for j, d := range defs {
+				if decideSame(x.C, use[i].Val, d.name.Val) {
+					r[i] = j
+					break
+				}
+			}
+		}
+		ref := fmt.Sprintf("ref%d_%d", r[0], r[1])
+		want := x.Res[ref]
+		if want.Err.IsErr != base.Err.IsErr {
+			return &Violation{Sub: "acceptance", Msg: fmt.Sprintf("with constants: error=%v (%s); with the values written out (%s): error=%v (%s)", base.Err.IsErr, interp.ToString(base.Err.Msg), ref, want.Err.IsErr, interp.ToString(want.Err.Msg))}
+		}
+		if base.Err.IsErr {
+			return nil
+		}
+		return expectLines(x, "substitution", fmt.Sprintf("two uses (%s): output vs output of the program with the values written out (first use: %s, second use: %s)", placement, c13RefName(r[0]), c13RefName(r[1])), outputLines(base.Out, false), outputLines(want.Out, false))
+	}
+	return cs
+}
+
+func c13RefName(r int) string {
+	if r < 0 {
+		return "left as written"
+	}
+	return fmt.Sprintf("constant %d expanded", r+1)
+}
+
 // RunC13 is the check of property C13.
 func RunC13(env *Env, rep *Report) {
 	var cases []*Case
@@ -184,10 +278,34 @@ func RunC13(env *Env, rep *Report) {
 			cases = append(cases, c13Case(s, dk))
 		}
 	}
+	// two uses per file
+	sites := c13Sites()
+	pairs := 0
+	multiOK := func(s c13Site, dk string) bool { return s.name != "mart-item" || dk == "one-single" }
+	for i, a := range sites {
+		for j, b := range sites {
+			for _, dk := range []string{"one-single", "one-multi", "chain"} {
+				if !multiOK(a, dk) || !multiOK(b, dk) || (a.avs != nil && b.avs != nil) {
+					continue
+				}
+				for _, pl := range []string{"before", "between"} {
+					if env.Tier != "thorough" {
+						// quick: every site once as first and once as second use
+						// (paired with its successor in the list), chain only
+						if dk != "chain" || j != (i+1)%len(sites) {
+							continue
+						}
+					}
+					cases = append(cases, c13PairCase(a, b, dk, pl))
+					pairs++
+				}
+			}
+		}
+	}
 	rep.Technique = "symbolic execution of the real constant handling (go/ssa) with symbolic constant names, values and use-site identifier; relational rope equality between P with constants and P with the value written out, the aliasing pattern decided by the solver (z3)"
-	rep.Explanation = "Bounded symbolic verification, not a proof. For every documented use site (command argument - also inside nested parentheses and of an autovar command -, flag/var/defeated operand, comparison value with and without value(), switch operand, case value, map-script table condition and value, mart item) and every non-site (command name, movement and moves() step, label, text content, map-script type, script name), a program with one identifier U at that position is compiled by symbolic execution under three definition sets (one single-token constant, one multi-token constant, a chain of three constants defined from each other), with all names and values symbolic; in the same symbolic state the programs with each constant's fully expanded value written in place of U, and the program without definitions, are compiled. Whether U is one of the constants is a solver-decided fork. Asserted: at a site the output equals that of the program with the matching constant's expanded value (or of the definition-free program if U matches none); at a non-site it equals the definition-free program's output whatever U is; acceptance/rejection agree."
-	rep.Bounds = map[string]interface{}{"sites": siteNames, "definition_sets": []string{"one single-token", "one multi-token", "chain of 3 (defined from each other)"}, "cases": len(cases), "uses_per_program": 1}
-	rep.Outside = []string{"several uses per program", "more than 3 definitions", "constants inside poryswitch cases"}
+	rep.Explanation = "Bounded symbolic verification, not a proof. For every documented use site (command argument - also inside nested parentheses and of an autovar command -, flag/var/defeated operand, comparison value with and without value(), switch operand, case value, map-script table condition and value, mart item) and every non-site (command name, movement and moves() step, label, text content, map-script type, script name), a program with one identifier U at that position is compiled by symbolic execution under three definition sets (one single-token constant, one multi-token constant, a chain of three constants defined from each other), with all names and values symbolic; in the same symbolic state the programs with each constant's fully expanded value written in place of U, and the program without definitions, are compiled. Whether U is one of the constants is a solver-decided fork. Asserted: at a site the output equals that of the program with the matching constant's expanded value (or of the definition-free program if U matches none); at a non-site it equals the definition-free program's output whatever U is; acceptance/rejection agree. Files with two uses (two top-level statements at two sites; every ordered pair of sites in the thorough tier, each site with its successor in the quick tier) are checked the same way against the program with both values written out, with the definitions placed before both statements or between them - in the latter placement the first use is not a later use and must stay as written."
+	rep.Bounds = map[string]interface{}{"sites": siteNames, "definition_sets": []string{"one single-token", "one multi-token", "chain of 3 (defined from each other)"}, "cases": len(cases), "uses_per_program": "1 and 2 (two statements at two sites; definitions before both or between them)", "two_use_cases": pairs}
+	rep.Outside = []string{"more than two uses per program", "more than 3 definitions", "constants inside poryswitch cases"}
 	rep.Assumptions = []string{"constant names are pairwise distinct identifiers (redefinition is C20)", "names are generic identifiers (Int-coded)"}
 	rep.Functions = []string{"parseConstant", "tryReplaceWithConstant", "parseCommandStatement", "parseLeafBooleanExpression", "parseConditionVarOperator", "parseSwitchStatement", "parseMapscriptsStatement", "parseMartStatement"}
 	rep.Match = func(k *KnownFinding, f *Finding) bool {
